@@ -89,6 +89,46 @@ def build() -> Check:
             ck.ob("R3.refreshed-status-must-be-started", construct, not bad3, trace_sig(bad3[0]) if bad3 else "", cell=st)
         for t in traces[:1]:
             ck.sample({"cell": st, "trace": trace_sig(t)})
+    # R5 the mode the executor reads is the mode the caller chose. Everything above starts at `config.step_semantics` inside the executor; on the way there the
+    # context API may put a default in place of a missing config, but a config that is rebuilt from the caller's one must carry every field - a field left out comes
+    # back as its default (r9_C04: StepConfig(retry_strategy=.., serdes=config.serdes) in DurableContext.step: an at-most-once step with a strategy of its own runs
+    # at-least-once, START is no longer awaited and an interrupted attempt is simply entered again)
+    from sa.common import fn_construct, same_class_config_copies
+    import ast as _ast
+    copies, n_cfg_funcs = same_class_config_copies(prog)
+    ck.analysed["functions_taking_a_config"] = n_cfg_funcs
+    ck.floor("functions_taking_a_config", n_cfg_funcs, 8)
+    lost = [(m_, fn_, c_, ci_, miss) for m_, fn_, c_, ci_, miss in copies if miss]
+    ck.analysed["same_class_config_copies"] = len(copies)
+    ck.ob("R5.callers-config-reaches-the-executor-whole", "context.py:DurableContext.step" if not lost else f"{lost[0][0].relpath}:{lost[0][1].name}", not lost,
+          "; ".join(f"{m_.relpath}:{fn_.name} line {c_.lineno}: `{_ast.unparse(c_)[:90]}` rebuilds the caller's {ci_.name} without {miss}" for m_, fn_, c_, ci_, miss in lost[:2]) +
+          ": the fields left out fall back to their defaults - for step_semantics the default is at-least-once, so an at-most-once step loses its awaited START and its "
+          "interrupted-attempt handling" if lost else f"{len(copies)} same-class copies in {n_cfg_funcs} functions that take a config")
+    # ... and the executor is handed that very object: the `config=` argument of the StepOperationExecutor call in DurableContext.step is the parameter (or the name the
+    # default was put into), not an expression
+    stepfn = prog.cls("context", "DurableContext").methods.get("step")
+    if stepfn is None:
+        raise AnalysisError("DurableContext.step not found")
+    ex_calls = [c_ for c_ in _ast.walk(stepfn.node) if isinstance(c_, _ast.Call) and _ast.unparse(c_.func).endswith("StepOperationExecutor")]
+    if len(ex_calls) != 1:
+        raise AnalysisError(f"DurableContext.step: expected one StepOperationExecutor(...) call, found {len(ex_calls)}")
+    cfg_kw = next((k.value for k in ex_calls[0].keywords if k.arg == "config"), None)
+    cfg_param = next((a.arg for a in stepfn.node.args.args + stepfn.node.args.kwonlyargs if a.annotation is not None and "StepConfig" in _ast.unparse(a.annotation)), None)
+    rebinds = [st for st in _ast.walk(stepfn.node) if isinstance(st, (_ast.Assign, _ast.AnnAssign)) and
+               any(isinstance(x, _ast.Name) and x.id == cfg_param for t_ in (st.targets if isinstance(st, _ast.Assign) else [st.target]) for x in _ast.walk(t_))]
+    bad_rb = []
+    for st in rebinds:
+        v_ = st.value
+        plain_default = isinstance(v_, _ast.Call) and _ast.unparse(v_.func) == "StepConfig" and not v_.args and not v_.keywords
+        full_copy = isinstance(v_, _ast.Call) and any(c_ is v_ and not miss for _, _, c_, _, miss in copies)
+        repl = isinstance(v_, _ast.Call) and _ast.unparse(v_.func).endswith("replace") and v_.args and _ast.unparse(v_.args[0]) == cfg_param and \
+            not any(k.arg == "step_semantics" for k in v_.keywords)
+        if not (plain_default or full_copy or repl):
+            bad_rb.append(f"line {st.lineno}: `{_ast.unparse(st)[:80]}`")
+    ck.ob("R5.executor-is-handed-the-callers-config", fn_construct(stepfn), isinstance(cfg_kw, _ast.Name) and cfg_kw.id == cfg_param and not bad_rb,
+          (f"the executor's config is `{_ast.unparse(cfg_kw) if cfg_kw is not None else '<missing>'}`, not the parameter `{cfg_param}`" if not (isinstance(cfg_kw, _ast.Name) and cfg_kw.id == cfg_param)
+           else "; ".join(bad_rb[:2]) + f": `{cfg_param}` is replaced by something that is neither the plain default for a missing config, a complete copy, nor dataclasses.replace() "
+           "keeping step_semantics"))
     ck.floor("function_entries_judged", n_user, 3)
     if ck.tier == "thorough":
         # cross-invocation composition: every history reachable through crashes at every event / suspensions / backend
